@@ -320,7 +320,7 @@ def main():
         "rule": "state = one path of the real construction + is_valid code (one graph); every path is a distinct graph description; transitions = solver queries "
                 "path => (verdict <-> nine conditions); all of them non-trivial (no syntactic closure)",
         "valid_graphs": valid, "attachment_vectors": len(items), "random_companion_graphs": nrand,
-        "bounds": {"n<=2": "complete incl. self-loops and sharing", "n=3": "complete incl. self-loops and sharing" if args.thorough else "all loop-free edge sets, all attachment vectors, no sharing",
+        "bounds": {"n<=2": "complete incl. self-loops, sharing and implicit node introduction", "n=3": "complete incl. self-loops and sharing" if args.thorough else "all loop-free edge sets, all attachment vectors, explicit and implicit node introduction, no sharing",
                    "n=4": "loop-free, sorted origin-kind vectors, <= 2 destinations (thorough only)" if args.thorough else "not explored",
                    "random": f"{nrand} seeded graphs with 4-6 nodes (plain sampling)"},
         "functions_encoded": ["Network.add_node/add_link/add_origin/add_destination", "Network.is_valid(raises=False|True)", "views.InLinkViewWrapper/OutLinkViewWrapper", "networkx DiGraph views"],
